@@ -153,6 +153,7 @@ class KeyBuilder:
 
 
 _KB = None
+_ABSTRACT_STANDINS: dict = {}
 
 
 def build(v, env, ghost_fn):
@@ -212,6 +213,10 @@ def build(v, env, ghost_fn):
                 # an ARBITRARY rounding context (C20): a concrete stand-in chosen by replay()
                 env['__used_ctx__'] = True
                 return env.get('__ctx__')
+            if _inspect.isabstract(cls):
+                # an object of an abstract class (C19x: an arbitrary `Expr` child): a concrete subclass that adds nothing
+                cls = _ABSTRACT_STANDINS.setdefault(cls, type(cls.__name__, (cls,), {
+                    m: (lambda self, *a, **k: None) for m in cls.__abstractmethods__}))
             obj = cls.__new__(cls)
             if 'id' in v:
                 env[v['id']] = obj
@@ -437,7 +442,16 @@ def replay_with(doc, ctx_standin, ghost_override=None, cand=None):
                         pos.append(Fraction(args[mm]) * Fraction(2) ** args[ee])
                 res = fn(*pos, ctx=args['ctx'])
             else:
-                res = fn(**args)
+                # GHOST parameters (declared by the contract, not by the target) are for pre/post only (C19x)
+                call_args = args
+                try:
+                    import inspect
+                    sig = inspect.signature(fn)
+                    if not any(p.kind == p.VAR_KEYWORD for p in sig.parameters.values()):
+                        call_args = {k: v for k, v in args.items() if k in sig.parameters}
+                except (TypeError, ValueError):
+                    pass
+                res = fn(**call_args)
         else:
             cls = getattr(m, parts[0])
             raw = cls.__dict__.get(parts[1])
